@@ -369,7 +369,8 @@ def gen_tie(prop: str) -> dict:
         res["skipped"] = "no translator targets for this property"
         return res
     tmp = None
-    lock = open(LEAN / ".gen_tie.lock", "w")
+    (LEAN / ".lake").mkdir(exist_ok=True)
+    lock = open(LEAN / ".lake" / "gen_tie.lock", "w")
     try:
         if in_tree:
             fcntl.flock(lock, fcntl.LOCK_EX)
